@@ -103,9 +103,12 @@ def mutants(design, classes=None):
                 out.append(("missing_conn", site, replace_conn(design, mname, di, ci, drop=True), {"unconnected"}))
                 if d[0] == "inst" and ports[pname][0] == "sig":
                     # ... and the dropped port is merely looked at afterwards (print(inst.p), a debugger, hasattr)
-                    dr = replace_conn(design, mname, di, ci, drop=True)
-                    dr["reads"] = [(mname, d[1], pname)]
-                    out.append(("missing_conn", site + "/read", dr, {"unconnected"}))
+                    # ... or used only by something that is not (or no longer) part of the design: a slice / concatenation
+                    # of it that nothing connects, an instance that is never added to a module
+                    for how in (("read", "slice", "concat", "discarded") if ci == 0 else ("read", "discarded")):
+                        dr = replace_conn(design, mname, di, ci, drop=True)
+                        dr["reads"] = [(mname, d[1], pname, how)]
+                        out.append(("missing_conn", site + "/" + how, dr, {"unconnected"}))
                 for path, sub in walk_expr(e):
                     k = sub[0]
                     if k == "rng":
